@@ -298,7 +298,7 @@ impl AiReply {
 pub fn comment_leader(path: &str) -> &'static str {
     let ext = path.rsplit('.').next().unwrap_or("");
     match ext {
-        "rs" | "js" | "go" | "ts" | "java" | "c" | "cpp" | "swift" | "kt" => "//",
+        "rs" | "js" | "go" | "ts" | "java" | "c" | "cpp" | "swift" | "kt" | "cs" | "php" => "//",
         _ => "#",
     }
 }
@@ -310,6 +310,13 @@ fn wrapper_for(path: &str) -> Option<(&'static str, &'static str)> {
         "rs" => Some(("const ITEMS: &[&str] = &[", "];")),
         "js" | "ts" => Some(("const items = [", "];")),
         "go" => Some(("var items = []string{", "}")),
+        "java" => Some(("class Items { String[] items = {", "}; }")),
+        "cs" => Some(("class Items { string[] items = {", "}; }")),
+        "c" | "cpp" => Some(("const char *items[] = {", "};")),
+        "kt" => Some(("val items = listOf(", ")")),
+        "swift" => Some(("let items = [", "]")),
+        "php" => Some(("<?php $items = [", "];")),
+        "toml" => Some(("items = [", "]")),
         _ => None,
     }
 }
